@@ -86,6 +86,28 @@ theorem below_threshold_stays (w : World) (n : Nat) (t : Typ) (tr : Bool) (o : O
     ((markUnavail w n t tr o).1.nodes n).alive t.idx = (w.nodes n).alive t.idx :=
   below_threshold_keeps w n t tr o hc
 
+/-- **Exactness (histories).** From any state in which the slot is alive, not suppressed and its
+counter of that source is 0 (e.g. right after a success): the slot is still alive after each of the
+first k−1 consecutive counted failures and not alive after the k-th, k = 1/3 (transactional) resp.
+10/50 (traffic) — not earlier, not later. -/
+theorem kth_consecutive_failure_kills (w : World) (n : Nat) (t : Typ) (tr : Bool) (o : Oracle)
+    (hs : w.suppressed = false) (ha : (w.nodes n).alive t.idx = true) (hc : cnt tr (w.nodes n) t.idx = 0) :
+    (∀ j < threshold t.isUdp tr,
+      ((run w (List.replicate j (failEvent n t tr o))).1.nodes n).alive t.idx = true) ∧
+    ((run w (List.replicate (threshold t.isUdp tr) (failEvent n t tr o))).1.nodes n).alive t.idx = false := by
+  constructor
+  · intro j hj
+    rw [(consecutive_below w n t tr o hs hc j hj).2.1]; exact ha
+  · have hpos : 0 < threshold t.isUdp tr := by cases t.isUdp <;> cases tr <;> decide
+    obtain ⟨k, hk⟩ : ∃ k, threshold t.isUdp tr = k + 1 := ⟨threshold t.isUdp tr - 1, by omega⟩
+    rw [hk, run_replicate_succ, step_failEvent]
+    obtain ⟨i1, _, i3⟩ := consecutive_below w n t tr o hs hc k (by omega)
+    exact threshold_kills _ n t tr o i1 (by rw [i3]; omega)
+
+example : ((run (run World.init [.node 0 1]).1 (List.replicate 9 (failEvent 0 .t4 true []))).1.nodes 0).alive 4 = true ∧
+    ((run (run World.init [.node 0 1]).1 (List.replicate 10 (failEvent 0 .t4 true []))).1.nodes 0).alive 4 = false := by
+  decide
+
 example : threshold false false = 1 ∧ threshold true false = 3 ∧ threshold false true = 10 ∧ threshold true true = 50 := by
   decide
 
@@ -191,6 +213,23 @@ last matching end. -/
 theorem suppression_window (w : World) :
     w.suppressed = true ↔ (0 < w.supCount ∨ w.now < w.supUntil) := by
   simp [World.suppressed]
+
+/-- How the window arises: a begin adds one outstanding scope; the end that brings the count to zero
+arms the quiesce deadline `now + 20 s`; other ends only decrement; time never shortens the deadline. -/
+theorem suppression_steps (w : World) :
+    (step w .sbegin).1.supCount = w.supCount + 1 ∧ (step w .sbegin).1.supUntil = w.supUntil ∧
+    (w.supCount = 1 → (step w .send).1.supCount = 0 ∧ (step w .send).1.supUntil = w.now + quiesce) ∧
+    (w.supCount = 0 → step w .send = (w, [])) ∧
+    (w.supCount > 1 → (step w .send).1.supCount = w.supCount - 1 ∧ (step w .send).1.supUntil = w.supUntil) ∧
+    (∀ d, (step w (.tick d)).1.supCount = w.supCount ∧ (step w (.tick d)).1.supUntil = w.supUntil ∧
+      (step w (.tick d)).1.now = w.now + d) := by
+  refine ⟨rfl, rfl, ?_, ?_, ?_, fun d => ⟨rfl, rfl, rfl⟩⟩
+  · intro h; simp [step, h]
+  · intro h; simp [step, h]
+  · intro h
+    have h0 : w.supCount ≠ 0 := by omega
+    have h1 : w.supCount ≠ 1 := by omega
+    simp [step, h0, h1]
 
 example :
     let w1 := (run World.init [.sbegin, .send, .tick (quiesce - 1)]).1
